@@ -23,6 +23,14 @@ def lab_configs(n, rr):
     return out
 
 
+def crate_mode(cfg, i, rr):
+    """Crate output mode (Config::build_crate, optionally Config::version): the generated code is a package of its
+    own with the emitted manifest (edition 2018, runtime crates by version, patched to the working tree)."""
+    cfg = dict(cfg)
+    cfg["crate"] = ["%s-%d" % (rr.choice(["my-product", "lab_api", "x"]), i), rr.choice(["1.2.3", "0.0.1-rc1"]), rr.choice([None, "9.9.9"])]
+    return cfg
+
+
 # ---- pinned witnesses of the known C03 findings (DESIGN.md section 6): micro definitions
 def pinned_c03():
     from ir import prim, opt, lst, set_, map_, ref, field, obj, alias, enum, union, arg, endpoint, service, definition
@@ -58,12 +66,18 @@ def c03_stage(prop, tier, seed, replay):
         cases = [(doc["case_seed"], doc["detail"]["config"])]
     else:
         cfgs = lab_configs(n, rr)
+        # every fourth lab (offset 2, so the four base configurations rotate through it) uses the crate output mode
+        cfgs = [crate_mode(c, i, rr) if i % 4 == 2 + (i // 4) % 2 else c for i, c in enumerate(cfgs)]
         cases = [(rr.getrandbits(48), cfgs[i]) for i in range(n)]
     rep = empty_report(prop)
     specs, meta = [], {}
     for i, (cs, cfg) in enumerate(cases):
         r = random.Random(cs)
-        g = LabGen(cs, Profile(n_types=r.choice([25, 40, 55]), services=r.choice([2, 3, 4]), errors=r.choice([2, 4]), hostile_names=True,
+        n_svc, n_err = r.choice([2, 3, 4]), r.choice([2, 4])
+        if cfg.get("crate"):
+            # the emitted manifest lists only the runtime crates the definition needs: vary what it needs
+            n_svc, n_err = r.choice([(n_svc, n_err), (n_svc, 0), (0, n_err), (0, 0)])
+        g = LabGen(cs, Profile(n_types=r.choice([25, 40, 55]), services=n_svc, errors=n_err, hostile_names=True,
                                packages=["com.verif.lab", "com.verif.lab.sub", "com.verif.lab.sub.deep", "com.verif.other", "org.example", "com.verif.lab.type", "com.verif.async.mod",
                                          "com.verif.left.api", "com.verif.right.api", "com.verif.left.api.v1", "com.verif.right.api.v1"]))
         ir = g.ir()
@@ -82,7 +96,8 @@ def c03_stage(prop, tier, seed, replay):
         pinned = name.startswith("pin_")
         status = res.gen.get(name, {})
         kinds = [t["type"] for t in ir["types"]]
-        shape = "types=%d|svc=%d|err=%d|ex=%s|se=%s|strip=%s" % (len(kinds) // 10 * 10, len(ir["services"]), len(ir["errors"]), cfg["exhaustive"], cfg["serialize_empty"], cfg["strip"])
+        shape = "types=%d|svc=%d|err=%d|ex=%s|se=%s|strip=%s|crate=%s" % (len(kinds) // 10 * 10, len(ir["services"]), len(ir["errors"]), cfg["exhaustive"], cfg["serialize_empty"], cfg["strip"],
+                                                                          bool(cfg.get("crate")) and bool(cfg["crate"][2]))
         if not pinned:
             rep["evaluations"] += 2
             distinct.add(fnv(shape))
@@ -94,6 +109,8 @@ def c03_stage(prop, tier, seed, replay):
                         distinct.add(fnv("arg:%s:%s" % (a["paramType"]["type"], a["type"]["type"])))
             cell = "labs/%s" % ("compiled" if res.compiled.get(name) else "failed")
             rep["matrix"][cell] = rep["matrix"].get(cell, 0) + 1
+            if cfg.get("crate"):
+                rep["matrix"]["labs/crate-mode"] = rep["matrix"].get("labs/crate-mode", 0) + 1
             rep["matrix"]["items/types"] = rep["matrix"].get("items/types", 0) + len(ir["types"])
             rep["matrix"]["items/endpoints"] = rep["matrix"].get("items/endpoints", 0) + sum(len(s["endpoints"]) for s in ir["services"])
         if status.get("status") != "ok":
